@@ -81,7 +81,7 @@ def run(repo, rep, tier):
             rep.violation("R-E4-ID", site, "true-anomaly", "true anomaly is not 2*atan(sqrt((1+e)/(1-e))*tan(E/2)) of the returned eccentric anomaly", obligation=True)
         # D5: E = e0 * f with f = phi(m' > pi ? -1 : 1)
         fs = [x for x in T.walk(Er)] if Er is not None else []
-        signs = [x for x in fs if x[0] == "phi" and x[2] == T.num(-1) and x[3] == T.num(1) and x[1][0] == "cmp" and x[1][1] == "Gt" and x[1][3] == T.PI]
+        signs = [x for x in fs if x[0] == "phi" and x[2] == T.num(-1) and x[3] == T.num(1) and x[1][0] == "cmp" and x[1][1] in ("Gt", "GtE") and x[1][3] == T.PI]
         ok5 = False
         if len(signs) == 1:
             c, rest = T.split_coeff(Er)
@@ -93,7 +93,7 @@ def run(repo, rep, tier):
             frac = T.sub(T.div(T.call("abs", m), T.mul(T.num(2), T.PI)), T.call("floor", T.div(T.call("abs", m), T.mul(T.num(2), T.PI))))
             m2 = T.mul(frac, T.num(2), T.PI, T.call("copysign", T.num(1), m))
             ok_red = False
-            if mred[0] == "phi" and mred[1][0] == "cmp" and mred[1][1] == "Lt" and mred[1][3] == T.ZERO:
+            if mred[0] == "phi" and mred[1][0] == "cmp" and mred[1][1] in ("Lt", "LtE") and mred[1][3] == T.ZERO:
                 try:
                     a2 = Algebra()
                     ok_red = a2.equal(mred[3], m2) and a2.equal(mred[2], T.add(m2, T.mul(T.num(2), T.PI))) and a2.equal(mred[1][2], m2)
